@@ -2443,6 +2443,39 @@ def kmer_default_lemmas(F, rep, tystr, which=None, rule="L-default"):
                                          "%s of %d bases: item %d is the k-mer of bases %d..%d" % (meth, n, i, i, i + K)) and ok
                 guarded(rep, rule, "%s/%s/len=%d" % (tag, meth, n), meth, f)
 
+    if want("bulk"):
+        # concrete inputs whose consecutive windows are EQUAL k-mers (a homopolymer run) or alternate between two (a dinucleotide repeat): one
+        # k-mer per start position all the same — whatever the rolling loop compares along the way
+        for meth, enc in (("kmers_from_bytes", lambda bs: [Int(8, False, val=b) for b in bs]), ("kmers_from_ascii", lambda bs: [Int(8, False, val=b"ACGT"[b]) for b in bs])):
+            for pname, bases in (("homopolymer", [3] * (K + 3)), ("dinucleotide repeat", [(1, 2)[i % 2] for i in range(K + 4)])):
+                key = "%s/%s/%s" % (tag, meth, pname.split()[0])
+
+                def f(meth=meth, enc=enc, bases=bases, key=key, pname=pname):
+                    r, _ = run_inst(F, kt.key("Kmer", meth), [slice_ref(enc(bases))])      # (concrete input: the byte tables are interpreted)
+                    rep.evaluations += 1
+                    cnt = len(bases) - K + 1
+                    if not isinstance(r, VecV):
+                        rep.inconclusive(rule, key, "%s: %r" % (meth, r))
+                        return
+                    if len(r.elems) != cnt:
+                        rep.violated(rule, key, "%s of a %s of %d bases (K = %d) yields %d k-mers; specified one per start position: %d" % (meth, pname, len(bases), K, len(r.elems), cnt),
+                                     witness={"kind": "count", "got": len(r.elems), "want": cnt})
+                        return
+                    for i, e in enumerate(r.elems):
+                        st_ = kt.storage_of(e)
+                        want_ = 0
+                        for j in range(K):
+                            hi, lo = kt.lane_bits(j)
+                            want_ |= ((bases[i + j] >> 1) & 1) << hi | (bases[i + j] & 1) << lo
+                        if not (isinstance(st_, Int) and st_.is_conc()):
+                            rep.inconclusive(rule, key, "%s: item %d is %r" % (meth, i, st_))
+                            return
+                        if st_.val != want_:
+                            rep.violated(rule, key, "%s of a %s: item %d is not the k-mer of bases %d..%d" % (meth, pname, i, i, i + K), witness={"kind": "item", "i": i})
+                            return
+                    rep.holds(rule, key, "%s of a %s of %d bases yields the %d (repeating) k-mers in order" % (meth, pname, len(bases), cnt), nontrivial=False)
+                guarded(rep, rule, key, meth, f)
+
     if want("immut"):
         for pos in range(K):
             def f(pos=pos):
